@@ -107,6 +107,20 @@ def cs_close_test_and_set(sc):
     return (ok, "closeWithError: %r" % t)
 
 
+def _real_tier(sc, rs, tier, seed):
+    """Supporting tier on real sockets / the real kernel: hconn real prints the cases, hconn exec runs them."""
+    from . import core
+    n = 36 if tier == "quick" else 600
+    p = core.run([sc.exe("hconn"), "real", "-seed", str(seed), "-n", str(n)], timeout=60)
+    return core.diff_run(sc, "hconn", "conndrv", [], 0, seed, fields=rs.get("fields"), corpus=p.stdout,
+                         timeout=300 if tier == "quick" else 1800)
+
+
+def _real(fields):
+    return {"harness": "hconn", "driver": "conndrv", "fields": fields, "custom": _real_tier,
+            "quick": {"n": 36, "shards": 1}, "thorough": {"n": 600, "shards": 1}}
+
+
 _CS = [cs_write_calls_locked, cs_rearm_and_register_locked, cs_close_test_and_set]
 
 PROPS = {
@@ -119,7 +133,7 @@ PROPS = {
             "note": "model fidelity is sampled on every run (simulated kernel: vsys shim); real sockets are not part of this check",
             "technique": _TECH},
         "lean": ["NbioVerif.Properties.C01"], "drivers": ["conndrv"], "harness": ["hconn"],
-        "runs": [_run(["n", "err", "ow", "cb", "rc", "deliv", "closed", "wire", "onclose"])],
+        "runs": [_run(["n", "err", "ow", "cb", "rc", "deliv", "closed", "wire", "onclose"]), _real([])],
         "oracles": ["c01-"], "cs": _CS,
         "rule": "case = (stream type, epoll mode, bound, calls inside the open callback, op sequence with scripted kernel answers); distinct by "
                 "hash of (cell, per op: kind, error class, delivered event parts, queue length class, closed); non-trivial iff a backlog existed "
@@ -138,7 +152,7 @@ PROPS = {
             "note": "liveness in safety form (armed invariant + decreasing measure) under the assumption that an armed writable fd is eventually reported",
             "technique": _TECH},
         "lean": ["NbioVerif.Properties.C04"], "drivers": ["conndrv"], "harness": ["hconn"],
-        "runs": [_run(["deliv", "closed", "wl", "wadded", "reg", "ctl", "onclose"])],
+        "runs": [_run(["deliv", "closed", "wl", "wadded", "reg", "ctl", "onclose"]), _real([])],
         "oracles": ["c04-"], "cs": _CS,
         "rule": "same stream as C01 (writes inside the open callback before registration, from the data callback while an event is handled, "
                 "and between events; EPOLLOUT-only events whose flush ends in EAGAIN); non-trivial iff a backlog existed at some observation",
